@@ -27,6 +27,8 @@ def run(ctx, log):
                   "stel s = \"a\"; s[0] = \"b\"; 2.5 +", "\"abc\" \"def\" 1.25 )", "zolang onbekend { 1.5 }", "functie f(a) { 2.5; stop } f(1)"]
     progs = list(gccheck.ALLOC_CORPUS) + front_fail + progcheck.alloc_stress_family()[:9] + gccheck.gen_alloc_programs(rng, 200 if ctx.quick else 2000)
     full = vlib.nlh("eval", ["100000 " + vlib.hexs(s) for s in progs], tag="c04f")
+    # the same programs on the production build, where a box released twice or read after release meets the real allocator
+    progcheck.run_production(ctx, log, progs[:len(progs) - (0 if not ctx.quick else 80)])
     limit = 150 if ctx.quick else 2000
     cases = []      # (program index, k)
     for i, (s, o) in enumerate(zip(progs, full)):
